@@ -265,6 +265,21 @@ func c01Build(c c01cfg) func(hist []string) hx.GView {
 	}
 }
 
+// S part: the only ground of trust for a connection the hub dials itself is the user's registration; it is
+// withdrawn while the connection is being established
+func c01Scenarios(r *hx.Run) []hx.Scenario {
+	var out []hx.Scenario
+	pb := 1
+	if r.Thorough() {
+		pb = 2
+	}
+	for _, when := range []string{"dial", "handshake"} {
+		out = append(out, hx.Scenario{Name: "c01:race:unregister-during-" + when, Body: raceBody("unregister", when, true, true), Bounds: simrt.B(pb, 0, 0),
+			Cfg: simrt.Config{MaxSteps: 400000, BranchAfterMark: true, BranchOnly: []string{"user"}}})
+	}
+	return out
+}
+
 func c01Main(r *hx.Run) {
 	depth := 5
 	if r.Thorough() {
@@ -281,8 +296,23 @@ func c01Main(r *hx.Run) {
 		}
 	}
 	if r.Worker {
+		if hx.WorkerMode() == "s" {
+			hx.SWorker(c01Scenarios(r))
+			return
+		}
 		hx.GWorker(ms)
 		return
+	}
+	if r.ReplayIn != "" {
+		var art struct {
+			Replay struct {
+				Scenario string `json:"scenario"`
+			} `json:"replay"`
+		}
+		hx.ReadJSON(r.ReplayIn, &art)
+		if art.Replay.Scenario != "" {
+			hx.MaybeReplay(r, c01Scenarios(r))
+		}
 	}
 	if *debugHist != "" {
 		c01Debug = true
@@ -300,6 +330,20 @@ func c01Main(r *hx.Run) {
 	sum := hx.GExploreAll(r, ms)
 	viol := hx.GConfirm(sum, ms)
 	cov := sum.Coverage()
+	hx.SetWorkerMode("s")
+	scens := c01Scenarios(r)
+	ss := hx.ExploreAll(r, scens, false, 0)
+	for k := range ss.Found {
+		if !strings.HasPrefix(k, "C01|") && !strings.HasPrefix(k, "panic|") && !strings.HasPrefix(k, "engine|") {
+			delete(ss.Found, k)
+		}
+	}
+	viol = append(viol, hx.ConfirmViolations(ss, scens)...)
+	sc := ss.Coverage()
+	cov["withdrawn_registration_scenarios"] = len(scens)
+	cov["withdrawn_registration_executions"] = sc["executions"]
+	cov["withdrawn_registration_completed_bound"] = sc["completed_deviation_bound"]
+	cov["exhaustive"] = cov["exhaustive"].(bool) && sc["exhaustive"].(bool)
 	cov["configurations"] = len(ms)
 	cov["events"] = append(append([]string{"connect", "drop", "full", "w11", "w31", "w61", "cancel"}, c01MsgOrder...))
 	r.Finish(hx.Result{Level: "model_checking", Coverage: cov,
